@@ -28,6 +28,23 @@ THEOREMS = [
     "Typedpy.C07.cache_transparent",
     "Typedpy.C07.history_transparent",
     "Typedpy.C07.history_transparent_from_empty",
+    "Typedpy.C07.spec_ser_eq_ser",
+    "Typedpy.C07.ser_aggregate_pointwise_every_level",
+    "Typedpy.C07.deser_aggregate_shape",
+    "Typedpy.C07.sync_in_region",
+    "Typedpy.C07.mapper_round_trip_region",
+    "Typedpy.C07.region_example",
+    "Typedpy.C07.region_all_dict_example",
+    "Typedpy.C07.camel_idempotent_ascii",
+    "Typedpy.C07.mapper_round_trip_region_ascii",
+    "Typedpy.C07.mapper_round_trip_K",
+    "Typedpy.C07.mapper_round_trip_region_K",
+    "Typedpy.C07.keep_undefined_leak_counterexample",
+    "Typedpy.C07.inherited_closed_counterexample",
+    "Typedpy.C07.closed_round_trip_example",
+    "Typedpy.C07.cache_transparent_nested",
+    "Typedpy.C07.history_transparent_nested",
+    "Typedpy.C07.cache_nested_example",
 ]
 RULE = ("class hierarchies (1-3 levels of single inheritance, fresh classes per case) with 1-7 Integer / nested "
         "fields (nested classes directly, in Array, in Set; nesting depth <= 3), per-class _serialization_mapper "
@@ -72,6 +89,8 @@ describe = S.describe
 
 def judge(case, impl, model):
     """the main call and every call of its history are judged alike"""
+    if case.get("oracle") == "map":
+        return S.judge_map(case, impl)
     cd = case["cls"]
     pre = case.get("pre") or []
     hist = ""
@@ -123,19 +142,34 @@ def judge_call(cd, case, impl, model, hist):
                       + json.dumps(spec_doc)[:300] + hist))
     # ---- round trip inside the demanded domain
     hyp = model["hyp"]
-    if hyp["dom"] and "deser" in impl:
+    # theorems checked against the model itself (a contradiction means model/driver and proofs diverged)
+    if hyp.get("region") and hyp.get("domE") and not hyp.get("rtNoKu", hyp["rt"]) and not msg:
+        msg = "inside regionOK and levelDomE but levelOK fails somewhere: theorem sync_in_region contradicted"
+    if hyp.get("wf") and hyp.get("conf") and model["spec"] != model["ser"] and not msg:
+        msg = "model document differs from the specification document: theorem spec_ser_eq_ser contradicted"
+    # not demanded: an explicit keep_undefined=True (keeps every key that is not a field name, by design),
+    # a _deserialization_mapper that differs from the serialization mapper (different keys by design)
+    demanded = S.call_ku(case) is not True and not S.des_differs(cd)
+    if hyp["dom"] and "deser" in impl and demanded:
         r = impl["deser"]
         good = ("ok" in r and r.get("equal") and not r.get("extras")
                 and S.canon_inst(r["ok"], cd) == S.canon_inst(impl["inst_canon"], cd))
         if not good:
-            # dom and not rt  <=>  Sync fails at some (necessarily nested) level
-            key = "roundtrip:unexplained" if hyp["rt"] else "nested-resync"
-            if hyp["rt"] and S.closed(cd) and case.get("entry", "Deserializer") == "Deserializer":
-                # sites in the choice of extra kwargs (deserialize_structure_internal / Deserializer.deserialize)
+            # dom and not rtNoKu  <=>  Sync fails at some (necessarily nested) level;
+            # rtNoKu and not rt   <=>  some serialized key of some level is kept as an undefined attribute
+            #                          (exFree fails: keep_undefined reaches a class that does not drop it)
+            if not hyp.get("rtNoKu", hyp["rt"]):
+                key = "nested-resync"
+            elif not hyp["rt"]:
+                key = "roundtrip:undefined-keys-unexplained"
                 if r.get("extras"):
                     key = "keep-undefined-leak:Deserializer-closed-outer"
                 elif "err" in r and "non-field" in r.get("msg", ""):
                     key = "inherited-closed-class-rejects-mapped-key:deserialize_structure_internal"
+            else:
+                key = "roundtrip:unexplained"
+                if hyp.get("region") and hyp.get("domE"):
+                    key = "roundtrip:inside-the-proved-region"
             fails.append((key, "deserialize(serialize(x)) != x: document " + json.dumps(real_doc)[:200] + " gave "
                           + json.dumps(r)[:300] + " for instance " + json.dumps(case["kw"])[:200]
                           + " mappers " + json.dumps([lv["mapper"] for lv in cd["levels"]])[:300] + hist))
